@@ -54,6 +54,8 @@ KINDS = [
     ("sweep", None, True),
     ("subtree-support", None, True),
     ("subtree-decomp", None, None),
+    ("sweep-stub", None, False),
+    ("sweep-stub", None, True),
 ]
 TOL = 1e-9
 
@@ -72,6 +74,8 @@ def _case(draw, tier, shard):
         n = draw(st.sampled_from([3, 4, 2] if not out else ([3, 2] if quick else [3, 4, 2])))
     elif kind == "sweep":
         n = 2
+    elif kind == "sweep-stub":
+        n = 4 if quick or out else draw(st.sampled_from([4, 5]))
     elif kind in ("subtree-support", "subtree-decomp"):
         n = 3
     elif kind == "subtree-inner":
@@ -90,10 +94,13 @@ def _case(draw, tier, shard):
         thr=draw(st.sampled_from([1.0, 0.5, 0.9, 0.0])),
         outlier_prior=draw(st.sampled_from([0.05, 0.3, 0.01])) if out else 0.0,
         wiring="run" if kind == "sweep" else draw(st.sampled_from(["library", "run"])),
-        s=draw(st.sampled_from([0.5, 0.0, 1.0, 0.25])),
+        s=draw(st.sampled_from([0.5, 0.25, 0.75])) if kind == "sweep-stub" else draw(st.sampled_from([0.5, 0.0, 1.0, 0.25])),
         prev_alpha=draw(st.sampled_from([None, 4.0, None, 0.25])),
         warm_at=draw(st.integers(0, 500)),
         sib=draw(st.lists(st.integers(0, 7), min_size=1, max_size=3)),
+        pair_seeds=[draw(st.integers(0, 10 ** 6)) for _ in range(4)],
+        ndp=draw(st.sampled_from([1, 0, 2])),
+        nprg=draw(st.sampled_from([1, 2, 0])),
     )
 
 
@@ -185,6 +192,9 @@ def evaluate(case):
             elif kind == "sweep":
                 comp = "sweep"
                 K, leaves, resid = _sweep(world, samplers, case, keys, mts, trees, tags, budget_)
+            elif kind == "sweep-stub":
+                comp = "sweep/stub-moves"
+                K, leaves, resid = _sweep_stub(world, case, keys, mts, trees, pi, lp, comp, tags, budget_)
             else:
                 raise HarnessError("unknown kind %r" % kind)
         rc.check()
@@ -395,9 +405,61 @@ def _sweep(world, samplers, case, keys, mts, trees, tags, budget_):
     return K, l1 + l2 + l3 + l4 + l5 + l6, d
 
 
+class _PairMove:
+    """A pi-invariant stand-in for a tree update: a Metropolis swap between a state and its fixed partner."""
+
+    def __init__(self, keys, trees, lp, rng, seed):
+        import random
+
+        order = list(range(len(keys)))
+        random.Random(seed).shuffle(order)
+        self.partner = list(range(len(keys)))
+        for a, b in zip(order[::2], order[1::2]):
+            self.partner[a], self.partner[b] = b, a
+        self.idx = {k: i for i, k in enumerate(keys)}
+        self.trees, self.lp, self.rng = trees, lp, rng
+
+    def sample_tree(self, tree):
+        from vp.model import tree_key
+
+        i = self.idx[tree_key(tree)]
+        j = self.partner[i]
+        if j == i:
+            return tree
+        if self.rng.random() < float(np.exp(min(0.0, self.lp[j] - self.lp[i]))):
+            return self.trees[j].copy()
+        return tree
+
+
+def _sweep_stub(world, case, keys, mts, trees, pi, lp, comp, tags, budget_):
+    """The sweep of run._run_main_sampler driven with four stand-in updates that are pi-invariant by construction
+    (Metropolis swaps over fixed random pairings of the whole state space).  Whatever way the loop chooses, orders or
+    repeats its updates, one sweep must leave pi invariant as long as the choice does not look at the tree: this
+    reaches state spaces (4 data points, up to 4 clones) that the real moves are too expensive to enumerate on."""
+    import types
+
+    import phyclone.run as prun
+    from phyclone.tree import Tree
+    from phyclone.utils import Timer
+
+    rng, td = world["rng"], world["tree_dist"]
+    mv = [_PairMove(keys, trees, lp, rng, sd) for sd in case["pair_seeds"]]
+    holder = types.SimpleNamespace(tree_sampler=mv[0], subtree_sampler=mv[1], dp_sampler=mv[2], prg_sampler=mv[3], conc_sampler=None, burnin_sampler=None)
+    data = [world["data"][i] for i in sorted(world["data"])]
+
+    def one_iter(tree):
+        with contextlib.redirect_stdout(io.StringIO()):
+            res = prun._run_main_sampler(False, data, float("inf"), 1, case.get("ndp", 1), case.get("nprg", 1), 10 ** 9, holder, ["s"], 1, Timer(), tree, td, 0, rng, case["s"])
+        return Tree.from_dict(res["trace"][-1]["tree"])
+
+    K, leaves = exact.transition_matrix(one_iter, keys, trees, rng, comp, tags, budget_)
+    resid = exact.check_invariance(pi, K, keys, mts, comp, dict(tags, s=case["s"]), TOL)
+    return K, leaves, resid
+
+
 def shrink_candidates(case):
     c = dict(case)
-    if c["n"] > 1 and c["kind"] != "sweep":
+    if c["n"] > 1 and c["kind"] not in ("sweep", "sweep-stub"):
         yield dict(c, n=c["n"] - 1)
     if c["dims"] > 1:
         yield dict(c, dims=1)
